@@ -67,7 +67,9 @@ func (f *flatten) Iterate(ctx context.Context, onFields OnFields, onRow OnFlatRo
 			anyNonConstantValueFound := false
 			for i, field := range fields {
 				val, found := vals[i].ValueAtTime(ts, field.Expr, resolution)
-				if found && !field.Expr.IsConstant() {
+				if found && !field.Expr.IsConstant() && field.Name != HavingFieldName {
+					// The HAVING criterion only filters rows, it doesn't make a period
+					// without data into a row.
 					anyNonConstantValueFound = true
 				}
 				row.Values[i] = val
